@@ -147,8 +147,11 @@ static int cmd_run(int argc, char** argv)
             printf("START %llu\n", (unsigned long long)i);
             fflush(stdout);
             SeqPlan    plan = gen_seq_plan(mix3(seed, prop_salt(world, prop), i), prof);
-            SeqOutcome out  = run_seq(plan);
+            SeqOutcome out  = run_seq(plan, nullptr, prop);
             agg.add(out.st);
+            if (out.other.any())
+                for (auto& p : out.other.props)
+                    agg.cut_short[p]++;
             if (out.st.nontrivial.count(prop))
             {
                 char buf[32];
@@ -165,8 +168,6 @@ static int cmd_run(int argc, char** argv)
                 agg.samples.push_back(plan.to_json());
             if (out.v.any())
             {
-                for (auto& p : out.v.props)
-                    agg.cut_short[p]++;
                 auto o = js::Value::object();
                 o.set("i", i);
                 o.set("violation", viol_json(out.v));
@@ -269,6 +270,7 @@ struct Fingerprint
     Violation v;
     uint64_t  log_hash{0};
 };
+static std::string g_focus; // --focus: the property whose violations are reported (sequential world)
 static Fingerprint run_plan_json(const js::Value& pj, std::string* trace)
 {
     Fingerprint fp;
@@ -281,7 +283,7 @@ static Fingerprint run_plan_json(const js::Value& pj, std::string* trace)
             fp.v.check = "harness.bad_plan";
             return fp;
         }
-        SeqOutcome o = run_seq(plan, trace);
+        SeqOutcome o = run_seq(plan, trace, g_focus);
         fp.v         = o.v;
         fp.log_hash  = o.st.log_hash;
     }
@@ -425,14 +427,21 @@ static int cmd_shrink(int argc, char** argv)
     return cls == want ? 0 : 3;
 }
 
+#include <sys/resource.h>
 int main(int argc, char** argv)
 {
+    {
+        // a sanitizer / debug-mode abort must be cheap: the orchestrator restarts us
+        rlimit rl{0, 0};
+        setrlimit(RLIMIT_CORE, &rl);
+    }
     if (argc < 2)
     {
         fprintf(stderr, "usage: sim run|genplan|replay|classify|shrink ...\n");
         return 2;
     }
     std::string cmd = argv[1];
+    g_focus         = arg(argc, argv, "--focus", "");
     if (cmd == "run")
         return cmd_run(argc, argv);
     if (cmd == "genplan")
